@@ -528,14 +528,22 @@ class Extractor:
             seen = False
             for c in inner:
                 if seen:
-                    stack = [c]
+                    # (node, in_loop, in_switch): a break / continue whose target loop (or switch, for break) lies inside this scope
+                    # does not leave the scope; return and goto always count
+                    stack = [(c, False, False)]
                     while stack:
-                        x = stack.pop()
+                        x, in_loop, in_switch = stack.pop()
                         if not x or x.get('kind') == 'LambdaExpr':     # a return inside a lambda leaves the lambda, not this scope
                             continue
-                        if x.get('kind') in ('ReturnStmt', 'BreakStmt', 'ContinueStmt', 'GotoStmt'):
+                        k = x.get('kind')
+                        if k in ('ReturnStmt', 'GotoStmt') or (k == 'ContinueStmt' and not in_loop) or \
+                           (k == 'BreakStmt' and not (in_loop or in_switch)):
                             raise ExtractionBreak('early exit from a lock scope at ' + self.loc(c))
-                        stack.extend(x.get('inner', []))
+                        if k in ('ForStmt', 'WhileStmt', 'DoStmt', 'CXXForRangeStmt'):
+                            in_loop = True
+                        if k == 'SwitchStmt':
+                            in_switch = True
+                        stack.extend((y, in_loop, in_switch) for y in x.get('inner', []))
                 if c.get('kind') == 'DeclStmt' and any(is_sync(self.node_types(v)) for v in c.get('inner', []) if v):
                     seen = True
             i = tail.rfind('}')
@@ -695,6 +703,9 @@ class Extractor:
             self.fire('R4-ref')
             return '(*%s)' % rd['name']
         if rd.get('kind') == 'EnumConstantDecl':
+            if 'cv_status' in (rd.get('type', {}).get('qualType', '') + n.get('type', {}).get('qualType', '')):
+                # std::cv_status { no_timeout, timeout } as the integers the timed waits of R12c yield
+                return {'no_timeout': '0 /* std::cv_status::no_timeout */', 'timeout': '1 /* std::cv_status::timeout */'}[rd['name']]
             return rd['name']
         if rd.get('kind') == 'VarDecl':
             d = self.tu.byid.get(rd['id'])
@@ -912,6 +923,15 @@ class Extractor:
                     if name == 'wait':
                         return '({ if (!(%s)) { wv_cv_wait(%s, %s); __CPROVER_assume(%s); } })' % (pred, cv, self.lockers[var], pred)
                     return '({ if (!(%s)) wv_cv_wait(%s, %s); (bool)(%s); })' % (pred, cv, self.lockers[var], pred)
+            # R12c timed waits without a predicate: wait_for(lock, duration) / wait_until(lock, time_point).  One round of wv_cv_wait
+            # (lock released, the other threads' rely applied, lock re-acquired) and an arbitrary std::cv_status as the result:
+            # 1 = timeout, 0 = no_timeout (either may come with any state the rely allows).  The time argument is not generated
+            # (its declaration, of a std::chrono type, is dropped by R11): how long the wait lasts is not modelled.
+            if name in ('wait_for', 'wait_until') and len(args) == 2:
+                var = self.strip_casts(args[0]).get('referencedDecl', {}).get('name')
+                if var in self.lockers:
+                    self.fire('R12c-timed-wait')
+                    return '({ wv_cv_wait(%s, %s); _Bool wv_to; (int)wv_to; })' % (cv, self.lockers[var])
             if name == 'notify_all':
                 return 'wv_cv_notify_all(%s)' % cv
             if name == 'notify_one':
